@@ -84,7 +84,21 @@ func worker(a []string) {
 		fmt.Fprintln(os.Stderr, "no such check in this binary:", id)
 		os.Exit(2)
 	}
-	debug.SetMemoryLimit(6 << 30)
+	debug.SetMemoryLimit(3 << 30)
+	// hard guard: a worker must never drive the sandbox into the kernel's OOM killer
+	go func() {
+		for {
+			time.Sleep(300 * time.Millisecond)
+			var ms runtime.MemStats
+			runtime.ReadMemStats(&ms)
+			if ms.HeapAlloc > 4<<30 {
+				buf := make([]byte, 1<<16)
+				n := runtime.Stack(buf, true)
+				fmt.Fprintf(os.Stderr, "HARNESS-LIMIT worker heap %d MiB exceeds the 4 GiB guard\n%s\n", ms.HeapAlloc>>20, buf[:n])
+				os.Exit(4)
+			}
+		}
+	}()
 	if pf := os.Getenv("VERIF_PPROF"); pf != "" && i == 0 {
 		f, _ := os.Create(pf)
 		pprof.StartCPUProfile(f)
